@@ -88,11 +88,7 @@ def opValidator (inp imp : Json) : Except String Json := do
   let toks : List (Option (List Char)) := toksJ.map fun t => match t.getStr? with | .ok s => some s.toList | .error _ => none
   let parsed := parseValidator toks
   -- model validator in printed form
-  let mkLen (b : NumBound Nat) : V.Bound := { min := b.min.map natToStr, max := b.max.map natToStr, message := b.message }
-  let mkRange (b : NumBound (List Char)) : V.Bound :=
-    { min := b.min.bind rangeNum, max := b.max.bind rangeNum, message := b.message }
-  let mval : Option V.Validator := parsed.map fun p =>
-    { length := p.length.map mkLen, range := p.range.map mkRange, email := p.email, url := p.url }
+  let mval : Option V.Validator := parsed.map VP.toValidator
   let s := L.str r
   let t := L.parseTS (parseFuel s) s
   let schema := V.buildSchema [] t mval
